@@ -167,6 +167,9 @@ def main(run, tier):
                     yield (line, carry)
     nconc = Concrete('calmjs.parse.sourcemap:normalize_mapping_line', _ncall, _npost, _ninputs, bound='lines of <= 3 segments over 10 shapes')
     verify_functions(run, cnorm.build(sm), {}, {nconc.qualname: nconc}, tier=tier, both=(tier == 'thorough'))
+    # ---- the VLQ layer the mappings string is written with (obligations of C10, imported: C09 rests on them)
+    from .c10 import vlq_layer
+    vlq_layer(run, tier)
     # ---- E1: sourcemap.write, both loops cut (contracts/smwrite.py); witness inputs = the synthetic streams below
     import contracts.smwrite as csm
 
